@@ -84,6 +84,48 @@ JMove(ev, reg, opts) ==
                ELSE IF opts.retain_names /\ Len(ev.args) = 1 /\ r.names # reg[ev.args[1]].v.names THEN "names"
                ELSE "ok"])
 
+\* ------------------------------------------------ C10 reductions, linear algebra
+\* ev.axes: the axes given (possibly negative); ev.axis_none: no axis given
+AxesOf(ev, nd) == IF ev.axis_none THEN 0..(nd - 1) ELSE {NormAxis(ev.axes[i], nd) : i \in 1..Len(ev.axes)}
+OptArg(ev, reg, flag, pos) == IF flag THEN <<reg[ev.args[pos]].d>> ELSE <<>>
+JReduce(ev, reg) ==
+  LET a == reg[ev.args[1]].d
+      nd == Len(a.shape)
+  IN CASE ev.fn = "sum" -> ExpectDen(ev, "poly", DSumAxes(a, AxesOf(ev, nd), ev.keepdims))
+       [] ev.fn = "prod" -> ExpectDen(ev, "poly", DProdAxes(a, AxesOf(ev, nd), ev.keepdims))
+       [] ev.fn = "cumsum" ->
+            ExpectDen(ev, "poly", IF ev.axis_none THEN DCumSumAxis(DRavel(a), 0)
+                                  ELSE DCumSumAxis(a, NormAxis(ev.axes[1], nd)))
+       [] ev.fn = "mean" ->
+            LET A == AxesOf(ev, nd)
+                s == DSumAxes(a, A, ev.keepdims)
+                cnt == Size([j \in 1..nd |-> IF (j - 1) \in A THEN a.shape[j] ELSE 1])
+            IN IF ev.out # "ret" THEN "raised"
+               ELSE IF ~HasDen(ev.res[1]) \/ ev.res[1].kind # "poly" THEN "type"
+               ELSE IF ev.res[1].shape # s.shape THEN "shape"
+               ELSE LET r == Den(ev.res[1])
+                    IN IF \A k \in 1..Len(s.el) : EClose(EScale(NInt(cnt), r.el[k]), s.el[k], 40)
+                       THEN "ok" ELSE "value"
+       [] ev.fn = "diff" ->
+            LET ax == NormAxis(ev.axes[1], nd)
+                pre == OptArg(ev, reg, ev.has_pre, 2)
+                app == OptArg(ev, reg, ev.has_app, IF ev.has_pre THEN 3 ELSE 2)
+            IN ExpectDen(ev, "poly", DDiff(a, ev.n, ax, pre, app))
+       [] ev.fn = "ediff1d" ->
+            LET bg == OptArg(ev, reg, ev.has_pre, 2)
+                en == OptArg(ev, reg, ev.has_app, IF ev.has_pre THEN 3 ELSE 2)
+            IN ExpectDen(ev, "poly", DEDiff1d(a, bg, en))
+       [] ev.fn = "inner" ->
+            LET b == reg[ev.args[2]].d
+            IN IF Len(a.shape) # 1 \/ b.shape # a.shape THEN "ok"       \* only vectors are claimed
+               ELSE ExpectDen(ev, "poly", DInnerVec(a, b))
+       [] ev.fn = "outer" -> ExpectDen(ev, "poly", DOuter(a, reg[ev.args[2]].d))
+       [] ev.fn = "matmul" ->
+            LET b == reg[ev.args[2]].d
+            IN IF ~MatMulOK(a.shape, b.shape) THEN "ok" ELSE ExpectDen(ev, "poly", DMatMul(a, b))
+       [] ev.fn = "det" ->
+            IF nd < 2 \/ a.shape[nd] # a.shape[nd - 1] THEN "ok" ELSE ExpectDen(ev, "poly", DDet(a))
+
 \* -------------------------------------------------------------- C14 options
 OptAct(ev) == ev.act \in {"set_options", "enter", "exit", "exit_exc", "get_mutate", "get_defaults"}
 NextOpts(ev, opts, ctx) ==
@@ -105,7 +147,7 @@ JOption(ev, opts, ctx) ==
     [] ev.act = "get_defaults" -> IF ev.out = "ret" /\ ev.seen = DefaultOptions THEN "ok" ELSE "defaults"
 
 \* ------------------------------------------------------------------ dispatch
-NeedsDen(ev) == ev.act \in {"arith", "unary", "move"}
+NeedsDen(ev) == ev.act \in {"arith", "unary", "move", "reduce"}
 Own(ev, reg, opts, ctx) ==
   CASE ev.act = "new" -> "ok"
     [] \E i \in 1..Len(ev.args) : ev.args[i] \notin 1..Len(reg) -> "machinery_operand"
@@ -113,6 +155,7 @@ Own(ev, reg, opts, ctx) ==
     [] ev.act = "arith" -> JArith(ev, reg)
     [] ev.act = "unary" -> JUnary(ev, reg)
     [] ev.act = "move" -> JMove(ev, reg, opts)
+    [] ev.act = "reduce" -> JReduce(ev, reg)
     [] OptAct(ev) -> JOption(ev, opts, ctx)
     [] OTHER -> "unknown_action"
 
